@@ -5,28 +5,40 @@ import Rustemo.Proofs.GlrClosure15
 namespace Rustemo.Glr
 open Rustemo
 
+/-- an extra invariant threaded through the reducer loop: it ignores the queue and is kept by `reducePath` -/
+structure Extra (env : Env) (F a : Nat) (X : RState → Prop) : Prop where
+  queue : ∀ (rs : RState) (q : List Reduction), X rs → X { rs with queue := q }
+  step : ∀ (rs rs' : RState) (p0 startHead : Nat) (sh : Head) (tk : Tok) (q : Path), RInv env F rs →
+    rs.gss.heads[startHead]? = some sh → sh.frontier = F → sh.tok = some tk → tk.kind = a →
+    X rs → reducePath env p0 startHead rs q = .ok rs' → X rs'
+
+theorem Extra.trivial (env : Env) (F a : Nat) : Extra env F a (fun _ => True) :=
+  ⟨fun _ _ _ => True.intro, fun _ _ _ _ _ _ _ _ _ _ _ _ _ _ => True.intro⟩
+
 /-- all paths of one reduction, one after the other -/
 theorem foldPaths_closure {env : Env} (hT : TableOk env) (hC : CompleteRN env.g env.t) (hW : GWF env.g) {F a : Nat}
+    {X : RState → Prop} (hX : Extra env F a X)
     {p0 len0 : Nat} {pr0 : Prod} {startHead : Nat} {sh : Head} {tk : Tok}
     (hnul : ∀ Y ∈ pr0.rhs.drop len0, Nullable env.g Y) (haug : env.g.isAug p0 = false) :
-    ∀ (paths : List Path) (rs rs' : RState), RInv env F rs → UInv F a rs.gss rs.sub → QSub rs →
+    ∀ (paths : List Path) (rs rs' : RState), RInv env F rs → UInv F a rs.gss rs.sub → QSub rs → X rs →
       (∀ q ∈ paths, PathCtx env F a rs p0 len0 pr0 startHead sh tk q ∧ PathOk env rs.gss p0 len0 pr0 F 0 q) →
       RCInvR env F a rs (Rem p0 len0 paths) → foldO (reducePath env p0 startHead) paths rs = .ok rs' →
-      RInv env F rs' ∧ Ext rs.gss rs'.gss ∧ UInv F a rs'.gss rs'.sub ∧ QSub rs' ∧ RCInv env F a rs'
-  | [], rs, rs', hI, hU, hqs, _, hinv, h => by
+      RInv env F rs' ∧ Ext rs.gss rs'.gss ∧ UInv F a rs'.gss rs'.sub ∧ QSub rs' ∧ RCInv env F a rs' ∧ X rs'
+  | [], rs, rs', hI, hU, hqs, hx, _, hinv, h => by
     simp only [foldO] at h
     injection h with h; subst h
-    refine ⟨hI, Ext.refl _, hU, hqs, ?_⟩
+    refine ⟨hI, Ext.refl _, hU, hqs, ?_, hx⟩
     intro u p pr P s'' hk
     rcases hinv u p pr P s'' hk with h | h | h
     · exact Or.inl h
     · exact Or.inr (Or.inl h)
     · obtain ⟨_, _, hm⟩ := h; simp at hm
-  | q :: rest, rs, rs', hI, hU, hqs, hpaths, hinv, h => by
+  | q :: rest, rs, rs', hI, hU, hqs, hx, hpaths, hinv, h => by
     simp only [foldO] at h
     obtain ⟨rs1, h1, h2⟩ := obind_eq_ok h
     obtain ⟨pc, hpok⟩ := hpaths q (by simp)
     have so := reducePath_closure hT hC hW hI hU pc hpok hnul haug hinv hqs h1
+    have hx1 : X rs1 := hX.step rs rs1 p0 startHead sh tk q hI pc.hsh pc.hshF pc.htk pc.hka hx h1
     have hpaths1 : ∀ q' ∈ rest, PathCtx env F a rs1 p0 len0 pr0 startHead sh tk q' ∧ PathOk env rs1.gss p0 len0 pr0 F 0 q' := by
       intro q' hq'
       obtain ⟨pc', hpok'⟩ := hpaths q' (by simp [hq'])
@@ -34,15 +46,17 @@ theorem foldPaths_closure {env : Env} (hT : TableOk env) (hC : CompleteRN env.g 
         hpok'.ext so.ext⟩
       obtain ⟨s, hm⟩ := pc'.hshsub
       exact ⟨s, so.sub _ hm⟩
-    obtain ⟨k1, k2, k3, k4, k5⟩ := foldPaths_closure hT hC hW hnul haug rest rs1 rs' so.inv so.u so.qsub hpaths1 so.rc h2
-    exact ⟨k1, so.ext.trans k2, k3, k4, k5⟩
+    obtain ⟨k1, k2, k3, k4, k5, k6⟩ :=
+      foldPaths_closure hT hC hW hX hnul haug rest rs1 rs' so.inv so.u so.qsub hx1 hpaths1 so.rc h2
+    exact ⟨k1, so.ext.trans k2, k3, k4, k5, k6⟩
 
 /-- one pending reduction -/
 theorem reduceOne_closure {env : Env} (hT : TableOk env) (hC : CompleteRN env.g env.t) (hW : GWF env.g) {F a : Nat}
+    {X : RState → Prop} (hX : Extra env F a X)
     {rs rs' : RState} {r : Reduction} {rest : List Reduction} (hq : rs.queue = r :: rest)
-    (hI : RInv env F rs) (hU : UInv F a rs.gss rs.sub) (hqs : QSub rs) (hinv : RCInv env F a rs)
+    (hI : RInv env F rs) (hU : UInv F a rs.gss rs.sub) (hqs : QSub rs) (hinv : RCInv env F a rs) (hx : X rs)
     (h : reduceOne env { rs with queue := rest } r = .ok rs') :
-    RInv env F rs' ∧ Ext rs.gss rs'.gss ∧ UInv F a rs'.gss rs'.sub ∧ QSub rs' ∧ RCInv env F a rs' := by
+    RInv env F rs' ∧ Ext rs.gss rs'.gss ∧ UInv F a rs'.gss rs'.sub ∧ QSub rs' ∧ RCInv env F a rs' ∧ X rs' := by
   have hr : RedOk env rs.gss F r := hI.lists.queue r (by rw [hq]; simp)
   have hI0 : RInv env F { rs with queue := rest } :=
     ⟨hI.g, hI.sub, ⟨fun x hx => hI.lists.queue x (by rw [hq]; simp [hx]), hI.lists.shifts, hI.lists.acc⟩⟩
@@ -114,8 +128,9 @@ theorem reduceOne_closure {env : Env} (hT : TableOk env) (hC : CompleteRN env.g 
           exact m3
       · exact Or.inr (Or.inl ⟨r1, hrest, m1, m2, m3⟩)
     · exact absurd hfalse (fun h => h)
-  obtain ⟨j1, j2, j3, j4, j5⟩ := foldPaths_closure hT hC hW hnul haug paths _ rs' hI0 hU hqs0 hpaths hinv0 h
-  exact ⟨j1, j2, j3, j4, j5⟩
+  obtain ⟨j1, j2, j3, j4, j5, j6⟩ :=
+    foldPaths_closure hT hC hW hX hnul haug paths _ rs' hI0 hU hqs0 (hX.queue rs rest hx) hpaths hinv0 h
+  exact ⟨j1, j2, j3, j4, j5, j6⟩
 
 /-- **Reduction closure.** When the reducer loop of a sub-frontier ends, every chain (from a root whose state holds
     the initial item of a production with the lookahead kind of the sub-frontier, spelling a prefix of that
@@ -123,19 +138,20 @@ theorem reduceOne_closure {env : Env} (hT : TableOk env) (hC : CompleteRN env.g 
     COVERED: the edge from the head of the goto state down to the root carries a possibility of the production
     whose children list is prefix-comparable with the chain — no reduction path was lost, whatever the order in
     which edges appeared. -/
-theorem reducerLoop_closure {env : Env} (hT : TableOk env) (hC : CompleteRN env.g env.t) (hW : GWF env.g) {F a : Nat} :
-    ∀ (fuel : Nat) (rs rs' : RState), RInv env F rs → UInv F a rs.gss rs.sub → QSub rs → RCInv env F a rs →
+theorem reducerLoop_closureX {env : Env} (hT : TableOk env) (hC : CompleteRN env.g env.t) (hW : GWF env.g) {F a : Nat}
+    {X : RState → Prop} (hX : Extra env F a X) :
+    ∀ (fuel : Nat) (rs rs' : RState), RInv env F rs → UInv F a rs.gss rs.sub → QSub rs → RCInv env F a rs → X rs →
       reducerLoop env fuel rs = .ok rs' →
-      RInv env F rs' ∧ Ext rs.gss rs'.gss ∧ UInv F a rs'.gss rs'.sub ∧ rs'.queue = [] ∧
+      RInv env F rs' ∧ Ext rs.gss rs'.gss ∧ UInv F a rs'.gss rs'.sub ∧ rs'.queue = [] ∧ X rs' ∧
       ∀ (u p : Nat) (pr : Prod) (P : List Nat) (s' : Nat), KChain env F a rs'.gss rs'.sub u p pr P s' →
         Covered rs' u p P s'
-  | 0, _, _, _, _, _, _, h => by simp [reducerLoop] at h
-  | fuel+1, rs, rs', hI, hU, hqs, hinv, h => by
+  | 0, _, _, _, _, _, _, _, h => by simp [reducerLoop] at h
+  | fuel+1, rs, rs', hI, hU, hqs, hinv, hx, h => by
     unfold reducerLoop at h
     split at h
     · rename_i hq
       injection h with h; subst h
-      refine ⟨hI, Ext.refl _, hU, hq, ?_⟩
+      refine ⟨hI, Ext.refl _, hU, hq, hx, ?_⟩
       intro u p pr P s' hk
       rcases hinv u p pr P s' hk with h1 | h1 | h1
       · exact h1
@@ -143,8 +159,18 @@ theorem reducerLoop_closure {env : Env} (hT : TableOk env) (hC : CompleteRN env.
       · exact absurd h1 (fun h => h)
     · rename_i r rest hq
       obtain ⟨rs1, h1, h2⟩ := obind_eq_ok h
-      obtain ⟨k1, k2, k3, k4, k5⟩ := reduceOne_closure hT hC hW hq hI hU hqs hinv h1
-      obtain ⟨m1, m2, m3, m4, m5⟩ := reducerLoop_closure hT hC hW fuel rs1 rs' k1 k3 k4 k5 h2
-      exact ⟨m1, k2.trans m2, m3, m4, m5⟩
+      obtain ⟨k1, k2, k3, k4, k5, k6⟩ := reduceOne_closure hT hC hW hX hq hI hU hqs hinv hx h1
+      obtain ⟨m1, m2, m3, m4, m5, m6⟩ := reducerLoop_closureX hT hC hW hX fuel rs1 rs' k1 k3 k4 k5 k6 h2
+      exact ⟨m1, k2.trans m2, m3, m4, m5, m6⟩
+
+theorem reducerLoop_closure {env : Env} (hT : TableOk env) (hC : CompleteRN env.g env.t) (hW : GWF env.g) {F a : Nat}
+    (fuel : Nat) (rs rs' : RState) (hI : RInv env F rs) (hU : UInv F a rs.gss rs.sub) (hqs : QSub rs)
+    (hinv : RCInv env F a rs) (h : reducerLoop env fuel rs = .ok rs') :
+    RInv env F rs' ∧ Ext rs.gss rs'.gss ∧ UInv F a rs'.gss rs'.sub ∧ rs'.queue = [] ∧
+    ∀ (u p : Nat) (pr : Prod) (P : List Nat) (s' : Nat), KChain env F a rs'.gss rs'.sub u p pr P s' →
+      Covered rs' u p P s' := by
+  obtain ⟨m1, m2, m3, m4, _, m6⟩ :=
+    reducerLoop_closureX hT hC hW (Extra.trivial env F a) fuel rs rs' hI hU hqs hinv True.intro h
+  exact ⟨m1, m2, m3, m4, m6⟩
 
 end Rustemo.Glr
